@@ -25,7 +25,7 @@ ID = "C20"
 ENGINE = "E4 preemption-bounded schedule explorer (real threads, sys.settrace scheduling points)"
 TECHNIQUE = ("stateless exhaustive enumeration of all thread schedules up to a preemption bound on the real code under a controlled scheduler "
              "(CHESS-style iterative context bounding), sequential-result oracle")
-LEVEL_TEXT = ("All 78 unordered pairs of 12 bodies (netloc-derived accessors in two orders, str/hash, modifiers, query + update_query, "
+LEVEL_TEXT = ("All 105 unordered pairs of 14 bodies (netloc-derived accessors in two orders, str/hash, modifiers, query + update_query, "
               "construction of the same new string, cache_configure, cache_clear, IDN build, child/parent, comparisons, pickle) over a "
               "shared cold pool are explored exhaustively at preemption bound 1 (quick; pairs of the small accessor bodies at bound 2) / 2 (thorough, per-tuple budget reported as a cap when hit, plus "
               "triples containing a cache operation at bound 1), on both backends; every complete schedule must give each body its solo "
@@ -54,10 +54,13 @@ class Harness:
         self.B = U.build(scheme="http", user="us", password="pw", host="host.example", port=8042, path="/a/b.txt", query_string="a=1&b=2",
                          fragment="frag")
         self.C = U("http://cached.example/x y?k=v")
+        # objects whose decoded views need multi-byte UTF-8 decoding (each thread decodes a different object)
+        self.D1 = pickle.loads(pickle.dumps(U("http://ü:pä@h.example/p%C3%A9th/%E2%82%AC.t%C3%A4r?k=%C3%A9&%E2%82%AC=1#fr%C3%A4g")))
+        self.D2 = pickle.loads(pickle.dumps(U("http://us%C3%A9r@h.example/%F0%9F%98%80/n%C3%A4me?q=%E2%82%AC+x#%C3%BC")))
 
 
 def observe_pool(h):
-    return tuple((n, repr(v)) for u in (h.T, h.B, h.C) for n, v in observe(u))
+    return tuple((n, repr(v)) for u in (h.T, h.B, h.C, h.D1, h.D2) for n, v in observe(u))
 
 
 BODIES = [
@@ -73,6 +76,8 @@ BODIES = [
     ("build_idn", lambda h: (impl.URL.build(scheme="http", host="ü.example").raw_host, impl.URL("http://xn--tda.example/").host)),
     ("child_parent", lambda h: (str(h.T / "c d"), str((h.B / "c").parent), h.T.name, h.T.suffix)),
     ("compare", lambda h: (h.T == h.B, h.T < h.B, hash(h.T) == hash(h.B), h.T == h.C)),
+    ("decode_a", lambda h: (h.D1.path, h.D1.fragment, h.D1.user, h.D1.query_string, h.D1.name)),
+    ("decode_b", lambda h: (h.D2.path, h.D2.user, h.D2.fragment, h.D2.query_string, h.D2.human_repr())),
     ("pickle", lambda h: (str(pickle.loads(pickle.dumps(h.T))), h.C.path, h.C.human_repr())),
 ]
 CACHE_BODIES = {6, 7}
